@@ -75,12 +75,13 @@ def leftrec_grammar(rng, idx):
     left-recursive rules, base alternative first/last, memoized atoms, positions"""
     r = rng
     leftrec_grammar.rec_first = True
+    leftrec_grammar.nullbase = False
     ops1 = r.sample(['+', '-', '|'], 2)
     ops2 = r.sample(['*', '/', '&'], 2)
     atom_kind = r.choice(['num', 'ident', 'paren'])
     rules = []
     pos = ['position'] if r.random() < 0.4 else []
-    style = r.choice(['struct', 'struct', 'calc', 'calc2', 'post'])
+    style = r.choice(['struct', 'struct', 'calc', 'calc2', 'post', 'nullbase'])
     noskip = ['no_skip_ws'] if r.random() < 0.3 else []
     memo_atom = ['memoize'] if r.random() < 0.4 else []
     num = dict(kind='rule', dirs=['string'] + memo_atom + noskip, name='Num',
@@ -98,6 +99,20 @@ def leftrec_grammar(rng, idx):
         leftrec_grammar.rec_first = rec_first
         rules.append(dict(kind='rule', dirs=['export', 'leftrec'] + pos + noskip, name='E', body=('choice', alts)))
         rules.append(num)
+    elif style == 'nullbase':
+        # E = l:*E op r:Num | [b:Num]   /  … | {b:Num}  /  … | b:Num | !'#'    (base alternatives that can match empty:
+        # the seed is accepted although it makes no progress; inputs starting with an operator exercise it)
+        rec = gen.seq(('field', 'left', True, 'E'), gen.lit(ops1[0]), ('field', 'right', False, 'Num'))
+        nb = r.choice(['opt', 'star', 'neg'])
+        if nb == 'opt':
+            base = [gen.seq(('opt', gen.choice(gen.seq(('field', 'base', False, 'Num')))))]
+        elif nb == 'star':
+            base = [gen.seq(('star', gen.choice(gen.seq(('field', 'base', False, 'Num'), gen.lit(',')))))]
+        else:
+            base = [gen.seq(('field', 'base', False, 'Num')), gen.seq(('neg', gen.lit('#')))]
+        rules.append(dict(kind='rule', dirs=['export', 'leftrec'] + pos + noskip, name='E', body=('choice', [rec] + base)))
+        rules.append(num)
+        leftrec_grammar.nullbase = True
     elif style == 'calc':
         # E = @:Add | @:Num ; Add = l:*E '+' r:Num    (enum override, indirect through a non-memoized rule)
         rules.append(dict(kind='rule', dirs=['export', 'leftrec'] + noskip, name='E',
@@ -164,12 +179,96 @@ def leftrec_inputs(rng, rules, n):
             s += r.choice(['', ' ', '']) + r.choice(ops) + r.choice(['', ' ', '']) + (str(r.randint(0, 99)) if r.random() < 0.8 else '')
         if r.random() < 0.3:
             s += r.choice(ops + [';', '.', ' ', 'x'])
-        if r.random() < 0.15:
+        if r.random() < (0.5 if getattr(leftrec_grammar, 'nullbase', False) else 0.15):
             s = r.choice(ops + ['(', ' ']) + s
         outs.add(s)
         if len(outs) >= n:
             break
     return sorted(outs)
+
+
+def revisit_grammar(rng):
+    """a rule with @check (and, in the variants, @memoize) that several alternatives reach at the same offset:
+    S = a:Asg | c:Call | i:Id ;  Asg = t:Id '=' v:Id ;  Call = f:Id '(' ')' ;  @check(hash) Id = letters
+    – the check fails for about half of the identifiers, so the later alternatives revisit a failed, checked rule"""
+    r = rng
+    chk = r.choice(['chk_hash2', 'chk_hash3', 'chk_hash2'])
+    kind = r.choice(['string', 'struct', 'override'])
+    F = lambda n, t: ('field', n, False, t)
+    rules = [dict(kind='rule', dirs=['export'], name='S',
+                  body=gen.choice(gen.seq(F('a', 'Asg')), gen.seq(F('c', 'Call')), gen.seq(F('i', 'Id'), gen.lit('!')),
+                                  gen.seq(gen.lit('?'), F('i', 'Id')))),
+             dict(kind='rule', dirs=[], name='Asg', body=gen.choice(gen.seq(F('t', 'Id'), gen.lit('='), F('v', 'Id')))),
+             dict(kind='rule', dirs=[], name='Call', body=gen.choice(gen.seq(F('f', 'Id'), gen.lit('('), gen.lit(')'))))]
+    word = ('plus', gen.choice(gen.seq(('range', gen.C('a'), gen.C('z')))))
+    ck = ('check', ['hooks', chk])
+    if kind == 'string':
+        rules.append(dict(kind='rule', dirs=['string', ck], name='Id', body=gen.choice(gen.seq(word))))
+    elif kind == 'struct':
+        rules.append(dict(kind='rule', dirs=[ck] + (['position'] if r.random() < 0.5 else []), name='Id', body=gen.choice(gen.seq(F('w', 'W')))))
+        rules.append(dict(kind='rule', dirs=['string'], name='W', body=gen.choice(gen.seq(word))))
+    else:
+        rules.append(dict(kind='rule', dirs=[ck], name='Id', body=gen.choice(gen.seq(F('@', 'W')))))
+        rules.append(dict(kind='rule', dirs=['string'], name='W', body=gen.choice(gen.seq(word))))
+    return rules
+
+
+def revisit_inputs(rng, n):
+    r = rng
+    outs = set()
+    words = ['a', 'b', 'if', 'f', 'x', 'ab', 'while', 'return', 'zz', 'q', 'kk', 'abc']
+    while len(outs) < n:
+        w, v = r.choice(words), r.choice(words)
+        outs.add(r.choice(['%s=%s' % (w, v), '%s()' % w, '%s ( )' % w, '%s!' % w, '?%s' % w, w, '%s = %s' % (w, v), '%s(' % w]))
+    return sorted(outs)
+
+
+def wsmemo_grammar(rng):
+    """a @no_skip_ws (and, in the variants, @memoize) rule M reached at one offset both from whitespace-skipping rules
+    and from a @no_skip_ws rule, in random alternative order; inputs have blanks at the shared offset"""
+    r = rng
+    F = lambda n, t: ('field', n, False, t)
+    alts = [gen.seq(F('a', 'A')), gen.seq(F('b', 'B')), gen.seq(F('c', 'Cc'))]
+    r.shuffle(alts)
+    rules = [dict(kind='rule', dirs=['export'], name='S', body=('choice', alts)),
+             dict(kind='rule', dirs=[], name='A', body=gen.choice(gen.seq(F('v', 'M'), gen.lit('x')))),
+             dict(kind='rule', dirs=['no_skip_ws'], name='B', body=gen.choice(gen.seq(F('v', 'M'), gen.lit('y')))),
+             dict(kind='rule', dirs=[], name='Cc', body=gen.choice(gen.seq(F('v', 'M'), gen.lit('z'))))]
+    mbody = gen.choice(gen.seq(gen.lit('m'), ('star', gen.choice(gen.seq(gen.lit('n'))))))
+    if r.random() < 0.5:
+        rules.append(dict(kind='rule', dirs=['string', 'no_skip_ws'], name='M', body=mbody))
+    else:
+        rules.append(dict(kind='rule', dirs=['no_skip_ws'], name='M', body=gen.choice(gen.seq(F('w', 'W')))))
+        rules.append(dict(kind='rule', dirs=['string', 'no_skip_ws'], name='W', body=mbody))
+    return rules
+
+
+def wsmemo_inputs(rng, n):
+    outs = set()
+    while len(outs) < n:
+        outs.add(rng.choice(['', ' ', '  ', '\t']) + rng.choice(['m', 'mn', 'mnn']) + rng.choice(['', ' ']) + rng.choice(['x', 'y', 'z', 'q', '']))
+    return sorted(outs)
+
+
+def caseless_grammar(rng):
+    """case-insensitive literal of ONE non-ASCII character without case: rejected by the generator on the pinned tree
+    (tag expect_reject); if a generator accepts it, the inputs put characters with the same lead byte at the literal"""
+    r = rng
+    ch, others = r.choice([('\u00d7', '\u05d0\u05e9'), ('\u65e5', '\u554a\u5b57'), ('\u20ac', '\u00ac\u20ad'), ('\u00b7', '\u00b6\u0137')])
+    F = lambda n, t: ('field', n, False, t)
+    lit = ('lit', True, [gen.C(ch)])
+    kind = r.choice(['string', 'struct', 'position'])
+    if kind == 'string':
+        rules = [dict(kind='rule', dirs=['export', 'string'], name='S',
+                      body=gen.choice(gen.seq(('star', gen.choice(gen.seq(lit), gen.seq(('range', gen.C('a'), gen.C('c'))))), F(None, 'char'))))]
+    else:
+        rules = [dict(kind='rule', dirs=['export'], name='S',
+                      body=gen.choice(gen.seq(('star', gen.choice(gen.seq(F('x', 'X')), gen.seq(gen.lit('a')))), ('opt', gen.choice(gen.seq(F('c', 'char'))))))),
+                 dict(kind='rule', dirs=(['position'] if kind == 'position' else []) + ['no_skip_ws'], name='X', body=gen.choice(gen.seq(lit)))]
+    ins = set()
+    while len(ins) < 8:
+        ins.add(''.join(r.choice([ch, others[0], others[1], 'a', 'b']) for _ in range(r.randint(1, 4))))
+    return rules, [('S', s) for s in sorted(ins)]
 
 
 def probe_grammar(rng):
@@ -181,8 +280,12 @@ def probe_grammar(rng):
     pbody = gen.seq(('field', None, False, 'Probe'), gen.lit('a'), ('opt', gen.choice(gen.seq(gen.lit('b')))),
                     *([gen.lit('c')] if inner_fail else []))
     kind = r.choice(['unit', 'string', 'struct', 'override'])
+    # sometimes a first alternative of plain literals that gets far before failing: the later alternatives then enter
+    # P with a state that already carries a farther error than P's own
+    far = [gen.seq(gen.lit('a'), ('opt', gen.choice(gen.seq(gen.lit('b')))), ('opt', gen.choice(gen.seq(gen.lit('c')))),
+                   ('opt', gen.choice(gen.seq(gen.lit('d')))), gen.lit('#'))] if r.random() < 0.5 else []
     rules = [dict(kind='rule', dirs=['export'], name='S',
-                  body=('choice', [gen.seq(('field', None, False, 'P'), gen.lit(t)) for t in tails] +
+                  body=('choice', far + [gen.seq(('field', None, False, 'P'), gen.lit(t)) for t in tails] +
                         ([gen.seq(('field', None, False, 'Q'))] if r.random() < 0.5 else [])))]
     if kind == 'unit':
         rules.append(dict(kind='rule', dirs=['memoize'], name='P', body=('choice', [pbody])))
@@ -221,6 +324,8 @@ def build_cases(seed, tier):
 
     def size(f):
         q, t, iq, it = SIZES[f]
+        if tier == 'search':      # directed search after a broken proof/correspondence: 3x the quick budget, other seed
+            return 3 * q, iq + 10
         return (t if thorough else q), (it if thorough else iq)
 
     def add(cid, rules, uctx, inputs, tags, group=None, variant=None, solo=False):
@@ -259,6 +364,23 @@ def build_cases(seed, tier):
                     set(rng.sample(names, max(1, len(names) // 3)))]
         for v, ms in enumerate(variants):
             add('memo%dv%d' % (i, v), set_memo(rules, ms), False, ins, ['memo'], group='memo%d' % i, variant=v)
+    # directed part of the memo family: a checked rule revisited at one offset by several alternatives
+    for i in range(max(3, n // 4)):
+        rules = revisit_grammar(rng)
+        ins = [('S', s) for s in revisit_inputs(rng, ni)]
+        names = [r_['name'] for r_ in rules if r_['kind'] == 'rule']
+        for v, ms in enumerate([set(), set(names), {'Id'}, set(names) - {'Id'}]):
+            add('memorv%dv%d' % (i, v), set_memo(rules, ms), False, ins, ['memo'], group='memorv%d' % i, variant=v)
+    for i in range(max(3, n // 4)):
+        rules = wsmemo_grammar(rng)
+        ins = [('S', s) for s in wsmemo_inputs(rng, ni)]
+        names = [r_['name'] for r_ in rules if r_['kind'] == 'rule']
+        for v, ms in enumerate([set(), set(names), {'M'}, {'M', 'W'}]):
+            add('memows%dv%d' % (i, v), set_memo(rules, ms), False, ins, ['memo'], group='memows%d' % i, variant=v)
+    # insensitive one-character literals without case (generator must reject them: C15; if it does not, C04's oracle sees the run)
+    for i in range(4):
+        rules, ins = caseless_grammar(rng)
+        add('caseless%d' % i, rules, False, ins, ['multibyte', 'expect_reject'])
     # left recursion
     n, ni = size('leftrec')
     for i in range(n):
